@@ -1076,7 +1076,7 @@ package modfile
 //@     invariant forall i int, j int :: 0 <= i && i < j && j < NL && f.Require[i].Mod.Path != "" && f.Require[j].Mod.Path != "" ==> f.Require[i].Mod.Path != f.Require[j].Mod.Path
 //@     # entries added by the loop: one per visited key, with the values recorded for it
 //@     invariant forall i int :: NL <= i && i < len(f.Require) ==> has(need, f.Require[i].Mod.Path) && visited(f.Require[i].Mod.Path) && f.Require[i].Mod.Version == need[f.Require[i].Mod.Path].version && f.Require[i].Indirect == need[f.Require[i].Mod.Path].indirect
-//@     invariant forall i int, j int :: NL <= i && i < j && j < len(f.Require) ==> f.Require[i].Mod.Path != f.Require[j].Mod.Path
+//@     invariant forall i int, j int {pos(f.Require, i), pos(f.Require, j)} :: NL <= i && i < j && j < len(f.Require) ==> f.Require[i].Mod.Path != f.Require[j].Mod.Path
 //@     invariant forall k string :: has(need, k) && visited(k) ==> (exists i int :: NL <= i && i < len(f.Require) && f.Require[i].Mod.Path == k)
 //@     # every request is already served by an old entry or is still in need
 //@     invariant forall d int :: 0 <= d && d < len(req) ==> (has(need, req[d].Mod.Path) && need[req[d].Mod.Path].version == req[d].Mod.Version && need[req[d].Mod.Path].indirect == req[d].Indirect) || (exists i int :: 0 <= i && i < NL && f.Require[i].Mod.Path == req[d].Mod.Path && f.Require[i].Mod.Version == req[d].Mod.Version && f.Require[i].Indirect == req[d].Indirect)
